@@ -85,6 +85,9 @@ class Rule:
                                  "written for" % (self.id, self.instances, what, n))
 
     def expect(self, cond, fn, where, construct, msg, okdesc=None, witness=None):
+        from . import facts as _facts
+        if _facts.TRACE is not None and hasattr(fn, "file") and hasattr(fn, "line"):
+            _facts.TRACE[(fn.name, fn.file, fn.line)] = fn      # functions that carry an obligation (tools/rename_sweep.py)
         if cond:
             self.ok(okdesc)
         else:
@@ -188,7 +191,7 @@ class Check:
                 "discharged": discharged,
                 "known_findings_reported": nknown,
                 "rule_instances": sum(r.instances for r in self.rules),
-                "rules": [{"id": r.id, "title": r.title, "analysis": r.analysis, "instances": r.instances,
+                "rules": [{"id": getattr(r, "id_display", r.id), "title": r.title, "analysis": r.analysis, "instances": r.instances,
                            "floor": r.floor_n, "obligations": r.obligations, "discharged": r.discharged,
                            "failures": len(r.failures), "broken": r.broken, "notes": r.notes[:8],
                            "samples": r.samples[:4]} for r in self.rules],
